@@ -43,6 +43,10 @@ def pyMin : List V → V
   | [] => .none
   | x :: xs => xs.foldl (fun m y => if pyLt y m == some true then y else m) x
 
+/-- reservoir sampling with the aggregator's random source: the sample after `its` -/
+def refSample (size : Nat) (tbl : List Nat) (its : List V) : Nat × List V :=
+  its.foldl (sampleStep size tbl) (0, [])
+
 def refAgg : Agg → List V → V
   | .first, its => its.head?.getD .none
   | .max, its => pyMax its
@@ -52,6 +56,10 @@ def refAgg : Agg → List V → V
   | .count, its => .int its.length
   | .flatten f, its => .list (its.flatMap (fun x => (iterOf (f.val x)).getD []))
   | .merge f, its => .dict (its.foldl (fun es x => match f.val x with | .dict ps => dupdate es ps | _ => es) [])
+  | .sample size tbl, its => .list (refSample size tbl its).2
+  | .clsLast, its => its.getLast?.getD .none
+  | .clsCount, its => .int its.length
+  | .unbound, _ => .none
 
 /-- the items before the first one on which `f` says STOP -/
 def cutStop (f : Fn) (its : List V) : List V := its.takeWhile (fun x => !(isStop (f.val x)))
@@ -71,6 +79,51 @@ def bucketStep (key : Fn) (bs : List (V × List V)) (x : V) : List (V × List V)
 def bucketize (key : Fn) (its : List V) : List (V × List V) :=
   (cutStop key its).foldl (bucketStep key) []
 
+/-- the buckets a hand-written loop holds after `its` (no cut at STOP) -/
+def buckets (key : Fn) (its : List V) : List (V × List V) := its.foldl (bucketStep key) []
+
+/-- the items of the bucket `k` falls into (first match), `[]` if there is none -/
+def bucketOf : List (V × List V) → V → List V
+  | [], _ => []
+  | (k', its) :: bs, k => if keyEq k' k then its else bucketOf bs k
+
+def bhas : List (V × List V) → V → Bool
+  | [], _ => false
+  | (k', _) :: bs, k => keyEq k' k || bhas bs k
+
+/-! ### STOP events
+
+  `stopsAt s its x`: a hand-written loop that has routed the items `its` to the spec `s`
+  is told STOP by `s` on the next item `x` (First after its first item, `Limit(n)` after
+  `n` items, a function returning STOP — under a key level: in the bucket of `x`). -/
+
+def stopsAt : GSpec → List V → V → Bool
+  | .agg _ .first, its, _ => !its.isEmpty
+  | .agg _ _, _, _ => false
+  | .fn f, _, x => isStop (f.val x)
+  | .list _ f, _, x => isStop (f.val x)
+  | .limit _ n sub, its, x => decide (n ≤ its.length) || stopsAt sub its x
+  | .nested _, _, _ => false
+  | .dict _ _ key sub, its, x =>
+    isStop (key.val x) ||
+      (!(isSkip (key.val x)) && stopsAt sub (bucketOf (buckets key its) (key.val x)) x)
+
+/-- no STOP event while `rest` is fed after `done` -/
+def eventFreeFrom (s : GSpec) : List V → List V → Bool
+  | _, [] => true
+  | done, x :: xs => !(stopsAt s done x) && eventFreeFrom s (done ++ [x]) xs
+
+/-- **H1'' (no STOP event)**: nothing says STOP on any item of the run.  First, Limit and
+    STOP-producing functions may be anywhere in the spec as long as they do not fire. -/
+def eventFree (s : GSpec) (its : List V) : Bool := eventFreeFrom s [] its
+
+/-- the items before the first STOP event (after `done`) -/
+def cutFrom (s : GSpec) : List V → List V → List V
+  | done, [] => done
+  | done, x :: xs => if stopsAt s done x then done else cutFrom s (done ++ [x]) xs
+
+def cutEvent (s : GSpec) (its : List V) : List V := cutFrom s [] its
+
 /-! ### the reference -/
 
 def emptyOr (g : GSpec) (f : List V → V) (its : List V) : V :=
@@ -79,21 +132,17 @@ def emptyOr (g : GSpec) (f : List V → V) (its : List V) : V :=
 /-- does the value spec produce a result on the first item routed to a bucket?  (a bucket
     enters the result when its first result is produced: a leaf that says STOP straight
     away leaves no entry) -/
-def hasVal : GSpec → V → Bool
-  | .agg .., _ => true
-  | .fn f, x => !(isStop (f.val x))
-  | .list _ f, x => !(isStop (f.val x))
-  | .limit _ n sub, x => n != 0 && hasVal sub x
-  | .nested _, _ => true
-  | .dict _ _ key sub, x => !(isStop (key.val x)) && (isSkip (key.val x) || hasVal sub x)
+def hasVal (s : GSpec) (x : V) : Bool := !(stopsAt s [] x)
 
 def bucketHasVal (sub : GSpec) (b : V × List V) : Bool :=
   match b.2 with
   | x :: _ => hasVal sub x
   | [] => false
 
-/-- the value a spec denotes over the (non-empty) list of items routed to it -/
-def valOf : GSpec → List V → V
+/-- the value a spec denotes over the (non-empty) list of items routed to it.
+    `cut = false`: the property's reference.  `cut = true` differs in ONE place: a nested
+    Group evaluation ends at its first STOP event (what the code does, `implTop` below). -/
+def valOfC (cut : Bool) : GSpec → List V → V
   | .agg _ a, its => refAgg a its
   | .fn f, its =>
     match (cutStop f its).getLast? with
@@ -101,17 +150,28 @@ def valOf : GSpec → List V → V
     | none => .none
   | .list _ f, its =>
     .list ((cutStop f its).filterMap (fun x => if isSkip (f.val x) then none else some (f.val x)))
-  | .limit _ n sub, its => if n == 0 then .none else valOf sub (its.take n)
+  | .limit _ n sub, its => if n == 0 then .none else valOfC cut sub (its.take n)
   | .nested g, its =>
     match its.getLast? with
-    | some x => emptyOr g (valOf g) ((iterOf x).getD [])
+    | some x =>
+      emptyOr g (valOfC cut g) (if cut then cutEvent g ((iterOf x).getD []) else (iterOf x).getD [])
     | none => .none
   | .dict _ _ key sub, its =>
-    .dict (((bucketize key its).filter (bucketHasVal sub)).map (fun b => (b.1, valOf sub b.2)))
+    .dict (((bucketize key its).filter (bucketHasVal sub)).map (fun b => (b.1, valOfC cut sub b.2)))
+
+/-- the reference of the property: the hand-written loop -/
+abbrev valOf : GSpec → List V → V := valOfC false
 
 /-- `glom(items, Group(g))` as a user would compute it; no item: the empty container
     of the spec's type (None for a leaf) -/
 def valOfTop (g : GSpec) (items : List V) : V := emptyOr g (valOf g) items
+
+/-- **what the code computes** (`c16_exact`): the hand-written loop over the items before the
+    first STOP event — a STOP from ANY bucket's leaf travels up through every enclosing
+    level to Group.glomit's `if ret is STOP: return last`, so it ends the WHOLE evaluation
+    (of the innermost enclosing Group).  The property holds on a run iff this equals
+    `valOfTop g items`. -/
+def implTop (g : GSpec) (items : List V) : V := emptyOr g (valOfC true g) (cutEvent g items)
 
 /-! ### hypotheses (all decidable, evaluated by the driver on every case) -/
 
@@ -134,7 +194,9 @@ def isSeqV : V → Bool
 /-- the operands an aggregator meets are of the types it can handle -/
 def aggOk (a : Agg) (its : List V) : Bool :=
   match a with
-  | .first | .count => true
+  | .first | .clsLast => its.all (fun x => !(isStop x) && !(isSkip x))    -- the items are not the sentinels themselves
+  | .count | .clsCount | .sample .. => true
+  | .unbound => its.isEmpty                                               -- every call raises TypeError
   | .max | .min => its.all isIntLike || its.all isStr
   | .avg => its.all isIntLike
   | .sum f => its.all (fun x => applyOk f x && isIntLike (f.val x))
@@ -151,8 +213,9 @@ def wfRun : GSpec → List V → Bool
   | .nested g, its => its.all (fun x => isSeqV x && wfRun g ((iterOf x).getD []))
   | .dict _ _ key sub, its => its.all (fun x => applyOk key x && hashable (key.val x)) && wfRun sub its
 
-/-- **H1' (no STOP source)**: no First, no Limit, no function that says STOP on one of the
-    items; below a key level a bare function / nested Group never yields SKIP either -/
+/-- **H1' (no STOP source)** — the hypothesis of the earlier form of the theorem, implied by
+    H1'' (`eventFree`) + `noSkipBelow`: no First, no Limit, no function that says STOP on one of
+    the items; below a key level a bare function / nested Group never yields SKIP either -/
 def stopFree (below : Bool) : GSpec → List V → Bool
   | .agg _ .first, _ => false
   | .agg _ _, _ => true
@@ -164,6 +227,33 @@ def stopFree (below : Bool) : GSpec → List V → Bool
     its.all (fun x => stopFree false g ((iterOf x).getD []))
   | .dict _ _ key sub, its => its.all (fun x => !(isStop (key.val x))) && stopFree true sub its
 
+/-- **SKIP below a key level**: a bare function / nested Group in value position under a key
+    level does not yield SKIP (the code then orders the keys by first value, not by first
+    occurrence: outside the reference) -/
+def canSkip : GSpec → Bool
+  | .fn _ => true
+  | .nested g => canSkip g
+  | .limit _ _ sub => canSkip sub
+  | _ => false
+
+def noSkipBelow (below : Bool) : GSpec → List V → Bool
+  | .fn f, its => !below || its.all (fun x => !(isSkip (f.val x)))
+  | .nested g, its =>
+    !(below && canSkip g) && its.all (fun x => noSkipBelow false g ((iterOf x).getD []))
+  | .dict _ _ _ sub, its => noSkipBelow true sub its
+  | .limit _ _ sub, its => noSkipBelow below sub its
+  | _, _ => true
+
+/-- **H2' (the slot of `acc`)**: no bucket key equals `id()` of its own spec dict.  (A bucket
+    key that IS the key-spec object shares a slot with the STOP mark of the level, which is
+    written only when the evaluation ends: harmless, `c16_exact` does not need it.) -/
+def slotApart : GSpec → List V → Bool
+  | .dict id _ key sub, its =>
+    its.all (fun x => !(keyEq (idKey id) (key.val x))) && slotApart sub its
+  | .limit _ _ sub, its => slotApart sub its
+  | .nested g, its => its.all (fun x => slotApart g ((iterOf x).getD []))
+  | _, _ => true
+
 /-- **H2 (one namespace, no collision)**: no bucket key equals `id()` of its own spec dict
     or is its own key-spec object -/
 def keysApart : GSpec → List V → Bool
@@ -173,13 +263,12 @@ def keysApart : GSpec → List V → Bool
   | .nested g, its => its.all (fun x => keysApart g ((iterOf x).getD []))
   | _, _ => true
 
-/-- the runs the theorems cover: keys apart (H2) and no STOP source (H1'), or a top-level
-    Limit(n) over a STOP-free spec, or a top-level First -/
+/-- the runs on which the code does what the property says: H2', no SKIP leaf below a key
+    level, and cutting the run at the first STOP event makes no difference to the
+    hand-written loop (no event at all; a top-level First / Limit(n); an event under a key
+    level that holds a single bucket, …) -/
 def covered (g : GSpec) (its : List V) : Bool :=
-  match g with
-  | .limit _ _ sub => keysApart sub its && stopFree false sub its
-  | .agg _ .first => its.all (fun x => !(isStop x))      -- the items are not the STOP sentinel itself
-  | g => keysApart g its && stopFree false g its
+  slotApart g its && noSkipBelow false g its && veq (implTop g its) (valOfTop g its)
 
 /-! ### the shapes of the two known defects (for classification only) -/
 
@@ -221,11 +310,48 @@ def observe : Except Err V → Obs
   | .ok v => .ok v
   | .error e => .err e.cls
 
-/-- The property evaluated on the observations of evaluating ONE spec object on each of
-    `runs` in turn: every well-typed run returns exactly what the hand-written loop
-    builds — whatever ran before (accumulation state lives for one evaluation only). -/
-def checkC16 (g : GSpec) (runs : List (List V)) (obs : List Obs) : Bool :=
-  obs.length == runs.length &&
-  (runs.zip obs).all (fun ro => !(wfRun g ro.1) || ro.2 == .ok (valOfTop g ro.1))
+/-- what is observed of one evaluation `glom(target, group)`: the result, and the target
+    afterwards — its items as values, and whether the target list, its items and every
+    shared sub-object are still the very objects they were (the harness compares identities) -/
+structure EvalObs where
+  res : Obs
+  after : List V
+  ident : Bool
+  deriving Repr, Inhabited
+
+def EvalObs.beq (a b : EvalObs) : Bool := a.res == b.res && veqList a.after b.after && a.ident == b.ident
+
+instance : BEq EvalObs := ⟨EvalObs.beq⟩
+
+/-- the model's observation: the evaluation is a function of the VALUES of the items and
+    builds new values only (`c16_texpr_frame`): the target is what it was -/
+def observeEval (its : List V) (r : Except Err V) : EvalObs := ⟨observe r, its, true⟩
+
+/-- one evaluation: a well-typed run returns exactly what the hand-written loop builds, and
+    (every run) leaves the target as it was -/
+def checkEval (g : GSpec) (its : List V) (o : EvalObs) : Bool :=
+  (!(wfRun g its) || o.res == .ok (valOfTop g its)) && veqList o.after its && o.ident
+
+/-- The property evaluated on the observations of a HISTORY of evaluations in one process:
+    `evals = [(i, j), …]` evaluates Group object `i` on target object `j`, in this order
+    (the same spec object / the same target object any number of times, other spec objects
+    in between).  Every evaluation is held against the hand-written loop over ITS items —
+    whatever ran before: accumulation state lives for one evaluation only, and nothing else
+    is remembered. -/
+def checkC16 (specs : List GSpec) (targets : List (List V)) (evals : List (Nat × Nat))
+    (obs : List EvalObs) : Bool :=
+  obs.length == evals.length &&
+  (evals.zip obs).all (fun eo =>
+    match specs[eo.1.1]?, targets[eo.1.2]? with
+    | some g, some its => checkEval g its eo.2
+    | _, _ => false)
+
+/-- the model's observations of a history -/
+def observeHistory (specs : List GSpec) (targets : List (List V)) (evals : List (Nat × Nat)) :
+    List EvalObs :=
+  evals.map (fun e =>
+    match specs[e.1]?, targets[e.2]? with
+    | some g, some its => observeEval its (groupEval g its)
+    | _, _ => ⟨.err "bad-index", [], false⟩)
 
 end Glom.C16
